@@ -118,10 +118,25 @@ type vTreeRun struct {
 	out      string
 }
 
+// vTreeEnv: every level's -f is backed by the environment variable TF (set or not by
+// the harness): routing, policies and help must not depend on where a value comes from.
+var vTreeEnv bool
+
+func vTreeEnvSetup() {
+	vTreeEnv = vParamInt("env") == 1
+	if vTreeEnv && vNondetBool("env.TF") {
+		vSetenv("TF", "true")
+	}
+}
+
 func vDeclare(cmd *Cmd, l *vLvl, run *vTreeRun) {
 	cmd.Spec = l.spec
 	cmd.LongDesc = l.longDesc
-	f := cmd.Bool(BoolOpt{Name: "f ff"})
+	fenv := ""
+	if vTreeEnv {
+		fenv = "TF"
+	}
+	f := cmd.Bool(BoolOpt{Name: "f ff", EnvVar: fenv})
 	if l.ownHelp {
 		cmd.Bool(BoolOpt{Name: "h help"})
 	}
@@ -386,6 +401,7 @@ func vHelpArgv(root *vLvl, maxK, l int) []string {
 // C04
 
 func H_route() {
+	vTreeEnvSetup()
 	root, version := vTree(vParamInt("tree"))
 	argv := vTreeArgv()
 	vNoHelp(argv)
@@ -426,6 +442,7 @@ func H_route() {
 // C07
 
 func H_policy() {
+	vTreeEnvSetup()
 	root, version := vTree(vParamInt("tree"))
 	argv := vTreeArgv()
 	vNoHelp(argv)
@@ -468,6 +485,7 @@ func H_policy() {
 // C14
 
 func H_help() {
+	vTreeEnvSetup()
 	root, version := vTree(vParamInt("tree"))
 	argv := vHelpArgv(root, vParamInt("K"), vParamInt("L"))
 	pol := vChoice("policy", 3)
